@@ -9,9 +9,30 @@ from tools.vlib import hx
 
 ID = "C14"
 LEVEL = "proof"
-DRIVER = {"srcs": ["harness/c14_driver.cc"], "sdk": False}
+DRIVER = {"srcs": ["harness/c14_driver.cc", "harness/c14_purity.cc"], "sdk": False}
+
+
+def build_driver():
+    """the ASan/UBSan case driver + the ThreadSanitizer purity probe (clang++), behind one dispatcher that behaves like a
+    single case driver: PURITY lines go to the probe (one process per line), everything else to the case driver"""
+    from tools import vlib, purity
+    main = vlib.build_driver("c14_driver", ["harness/c14_driver.cc"], sdk=False)
+    probe = purity.build_probe("c14_purity", ["harness/c14_purity.cc"])
+    return purity.make_dispatcher("c14_dispatch", main, probe)
+
+
+def purity_cases(tier):
+    # PURITY <members of the shared TraceState> <threads> <rounds (fresh shared objects each)> <iterations of every op per round>
+    k = 1 if tier == "quick" else 5
+    return ["PURITY 0 4 %d 4" % (150 * k), "PURITY 1 4 %d 4" % (150 * k), "PURITY 8 4 %d 3" % (120 * k), "PURITY 32 3 %d 2" % (60 * k)]
+
 TRIVIAL_TAGS = {"hdr_empty", "ops_none"}
 ASSUMPTIONS = [
+    "the model treats every TraceState operation as a PURE function of immutable values (objects are lists); this is NOT a theorem about the C++: it is probed "
+    "at run time on every check by harness/c14_purity.cc (clang ThreadSanitizer build; 3-4 real threads released by a barrier call ToHeader, Get, Set of an "
+    "existing/new/invalid key, Delete, GetAllEntries, Empty, the static IsValidKey/IsValidValue, FromHeader on shared header strings and the shared GetDefault() "
+    "singleton on FRESH shared objects with 0/1/8/32 members every round, results compared with a single-threaded reference; clauses purity:data_race, "
+    "purity:result_differs); per-thread hidden state is the business of the history cases, not of this probe",
     "std::regex (ECMAScript, no multiline) and isspace behave as modelled in the C locale; the three regex literals are re-translated from trace_state.h on every run",
     "`right--` in StringUtil::Trim never wraps below 0 (proved unreachable in the index-level model: trim_ix_never_underflows is implied by tokenizer_refines_split; the model itself saturates)",
     "'the original object is never modified' is observed by re-reading every earlier object (entries, ToHeader, Empty) after every operation; in the model objects are values, so the statement is the store-append lemma original_unchanged",
@@ -353,7 +374,7 @@ def limit_headers(rng):
 
 def gen(rng, tier):
     n = 1 if tier == "quick" else 12
-    cases = []
+    cases = purity_cases(tier)
     # ---- header strings alone
     for h in [b"", b" ", b",", b"a=1", b"a=1,b=2", b"a=1,a=2", b"a=1,b=2,a=3", b" a=1 , b=2 ", b"a=1,,b=2", b"a", b"a=", b"=1", b"a==1", b"a=1=2",
               b"a=1,b", b"b,a=1", b"a=1,B=2", b"A=1,b=2", b"a=1,b=2 ,", b"a= 1", b"a=1 2", b"a =1", b"\ta=1\n", b"a=1\x00", b"a=1,\x00", b"\x00",
@@ -411,6 +432,8 @@ def gen(rng, tier):
 def neighbours(rng, cases):
     out = []
     for c in cases:
+        if c.startswith("PURITY"):
+            continue
         segs = c.split(" | ")
         h = bytes.fromhex(segs[0].split()[1][1:])
         # vary the header and re-run the same operations on boundary keys
@@ -428,6 +451,8 @@ def neighbours(rng, cases):
 def shrink(case):
     """the runner takes the first candidate that still fails: shortest prefixes first, each tried on a few tiny headers
     before the original one"""
+    if case.startswith("PURITY"):
+        return
     segs = case.split(" | ")
     small = ["H x", "H " + hx(b"a=1"), "H " + hx(b"a=1,b=2"), "H " + hx(",".join("f%d=v" % i for i in range(32)).encode())]
     for n in range(1, len(segs) + 1):
@@ -443,6 +468,6 @@ LEVEL_TEXT = ("Theorems in coq/Properties_C14.v about the Gallina model of Trace
               "index-level tokenizer/fixed-capacity model that is diffed against the C++ equals the list-level one; the regex validators (re-translated "
               "from trace_state.h on every run) are proved equal to the W3C grammar for every byte string.  The model is tied to the C++ on every run by "
               "running the extracted model and the rebuilt ASan/UBSan driver on the same generated operation sequences and by running the extracted SPEC "
-              "on the implementation's observations.")
+              "on the implementation's observations.  The model's purity assumption (operations are functions of immutable values) is not a theorem about the C++: it is probed at run time on every check by a ThreadSanitizer build in which real threads run every const operation on shared objects (PURITY cases).")
 LEVEL_NOTE = ("Trusted: Coq kernel, extraction, ocaml/driver.ml, the C++ driver, the generator, tools/extract_consts.py; the model is hand-written "
               "(tied by correspondence, not verified against C++ semantics); memory safety is evidenced by sanitizers, not proved.")
